@@ -198,6 +198,9 @@ func structural(t *rapid.T, r *rejecter, l layout, variant string, id uint32, ct
 // drawScalar returns a fixed-width big-endian scalar in [1, n-1], edge values over-represented.
 func drawScalar(t *rapid.T, label string, n *big.Int, size int) []byte {
 	nm1 := new(big.Int).Sub(n, big.NewInt(1))
+	if sc, ok := gen.SpecialECScalar(t, label, size, 8); ok { // NIST curves only call this function
+		return sc
+	}
 	var v *big.Int
 	if rapid.IntRange(0, 11).Draw(t, label+"_kind") == 0 {
 		switch rapid.IntRange(0, 5).Draw(t, label+"_edge") {
